@@ -96,7 +96,7 @@ PROPS["C06"] = {
 PROPS["C16"] = {
     "rules": [r_storage.rule_Q1, r_storage.rule_Q2, r_storage.rule_Q3, r_storage.rule_Q4, r_storage.rule_N3, r_storage.rule_N3_overrides, r_storage.rule_Q6, r_storage.rule_Q5],
     "explanation": "Q6: the in-memory transaction reads through its own view (read-your-writes), as the SQLite transaction does by construction; Q1 proxy/actor tables agree (21 methods x 22 messages, crossed wires compile); Q2 every modifying SQL statement and commit dominated by check_write_access, schema upgrade only read-write; Q3 in-memory add_to_working_set returns the stored index; N3 sibling is_empty defaults agree.",
-    "not_decided": "equality of results for all call sequences, persistence across reopen, legacy-schema upgrades as data transformations",
+    "not_decided": "equality of results for all call sequences, persistence across reopen; of the legacy-schema upgrades only that no stored column is lost (Q5), not that the rewritten values are right",
     "assumptions": [],
 }
 PROPS["C13"] = {
@@ -120,7 +120,7 @@ PROPS["C08"] = {
 PROPS["C11"] = {
     "rules": [r_servers.rule_A1_local, r_servers.rule_A1_drop, lambda F, R: r_cloud.rule_K(F, R, which=("K2", "K5", "K4")), r_servers.rule_K7, r_servers.rule_GI, r_servers.rule_GC, r_servers.rule_GC4, r_servers.rule_GC5],
     "explanation": "A1 the local backend's accept path is one SQLite transaction (read, both writes, one commit); K5/K2 object store: the version object exists before `latest` can name it and nothing is acknowledged without the swap; GI git: commit of version file and meta precedes the push and Ok only on push()==true.",
-    "not_decided": "git's and SQLite's on-disk behaviour at a kill; restart-and-continue histories; the git backend's error exits between writing meta and committing",
+    "not_decided": "git's and SQLite's on-disk behaviour at a kill; restart-and-continue histories as such (GC4/GC5 decide only that a failed or interrupted git add_version is undone, on the error exit and at the next open, and report the unpushed-commit window as a known finding)",
     "assumptions": [],
 }
 PROPS["C19"] = {
